@@ -32,6 +32,7 @@ func genC01(t *core.Tape, tier string) *Scenario {
 	for i := 0; i < ncalls; i++ {
 		p := &CallPlan{ID: callID(i), Kind: genKind(t)}
 		p.K = genKnobs(t, p.Kind)
+		p.LiveCtx = t.Bool(1, 3, "live.ctx")
 		genMessagesFor(t, p, c.CompressMin, h.CompressMin, tier)
 		// zero-valued messages anywhere, in particular after non-zero ones
 		if t.Bool(1, 2, "zeros") {
